@@ -9,6 +9,8 @@ import (
 	"fmt"
 	"io"
 	"net/http"
+	"os"
+	"runtime/debug"
 	"strings"
 	"sync"
 	"sync/atomic"
@@ -147,8 +149,7 @@ func (w *recWriter) writeHeaderLocked(code int) {
 		if _, err := fmt.Sscanf(cl, "%d", &v); err == nil && v >= 0 && fmt.Sprint(v) == cl {
 			w.clen = v
 		} else {
-			// net/http drops an invalid Content-Length
-			w.problems = append(w.problems, "invalid-content-length")
+			// net/http silently drops an invalid Content-Length and frames the body itself
 			w.sent.Del("Content-Length")
 		}
 	}
@@ -274,6 +275,9 @@ func serve(h http.Handler, req *http.Request, body *scriptBody, w *recWriter, do
 		defer func() {
 			if r := recover(); r != nil {
 				res.panicVal = r
+				if os.Getenv("VERIF_STACK") != "" {
+					fmt.Fprintf(os.Stderr, "panic: %v\n%s\n", r, debug.Stack())
+				}
 			}
 		}()
 		if noFlusher {
